@@ -44,6 +44,11 @@ def matrix_case(runner, r, oc, nconf, big=False):
             dups = genlib.duplicate_tags(data.decode("utf-8", "surrogateescape"))
             genlib.edit_file(r, os.path.join(seed_dir, rel), fraction=0.7, skip=dups)
         model2 = genlib.mutate_model(r, model)[0] if r.random() < 0.6 else model
+        if model["kind"] == "sm" and r.random() < 0.7:
+            # a change that certainly orphans user code: every state / action / guard renamed (the LostCode files then
+            # name the files the code came from - by their absolute path, whatever the spelling of the output directory)
+            from checks import c03
+            model2 = c03.rename_all(r, model, r.choice(["state", "action", "guard"]))[0]
         results = []
         for i in range(nconf):
             work = os.path.join(base, "w")            # the same place every time: only the configuration varies
